@@ -15,6 +15,9 @@ CHECKS = {
  "C01": ("model-based stateful PBT (proptest) + event-replay oracle",
          "Generated operation histories over nine fungible-token contracts (4 harness flavours wiring Base/AllowList/BlockList/FungibleVotes, 5 example contracts) with state-relative amounts and explicit authorization entries; after every step total_supply == sum of balances (BigInt), supply delta by op kind, failed call leaves the dump unchanged, and folding the emitted mint/burn/transfer events from genesis reproduces every balance.",
          "DESIGN.md §4 C01"),
+ "C02": ("model-based stateful PBT (proptest) with explicit authorization entries (no mock_all_auths)",
+         "Generated histories of approve/transfer/transfer_from/burn/burn_from/mint/ledger-advance over nine fungible-token contracts, every call carrying an explicit authorization set in one of the modes Exact/Drop/Swap/Tamper/Surplus; safety oracle from the statement: a balance decreases only with the holder's exact entry or a spender's entry plus a live sufficient allowance that then drops by exactly the amount; allowances never exceed approved-minus-spent, are zero after live_until (also past the entry's storage TTL) and change only by the owner's approve or by being spent.",
+         "DESIGN.md §4 C02"),
 }
 
 PENDING_REASON = "check not yet implemented in this commit (work in progress; design in DESIGN.md §4) — will be claimed once its harness lands"
